@@ -28,6 +28,9 @@ from glue.core.component_link import ComponentLink
 from glue.core.coordinates import AffineCoordinates, IdentityCoordinates
 from glue.core.exceptions import IncompatibleAttribute
 from glue.core.link_helpers import LinkSame, LinkTwoWay, MultiLink, LinkAligned
+from glue.core.subset import RangeSubsetState
+from glue.core.hub import HubListener
+from glue.core.message import Message, ExternallyDerivableComponentsChangedMessage
 
 from vf.ctx import stable_hash
 
@@ -66,6 +69,11 @@ ANCHORS = ["glue.core.link_manager:discover_links", "glue.core.link_manager:Link
 
 RTOL = 1e-9
 MAX_CANDS = 48
+try:
+    import dask.array  # noqa
+    HAVE_DASK = True
+except Exception:  # noqa
+    HAVE_DASK = False
 
 
 class BoundExceeded(BaseException):
@@ -98,16 +106,32 @@ def setup(ctx):
 
 
 # ---------------------------------------------------------------- functions
-def make_fn(k, nin):
+class LinkBoom(ValueError):
+    """raised by deliberately faulty link functions"""
+
+
+BOOM = "<link function raises>"
+
+
+def make_fn(k, nin, scale=1.0, variant="plain"):
+    """path-distinguishing link function sum((i+1)*x_i) + k*scale; variants: 'ravel' returns the result ravelled
+    (glue documents that it restores the shape), 'const' returns a Python scalar (constant function), 'boom' raises."""
+    c = k * scale
+
     def f(*args):
-        return sum((i + 1) * np.asarray(x, dtype=float) for i, x in enumerate(args)) + k
-    f.__name__ = "f%d_%d" % (nin, k)
+        if variant == "boom":
+            raise LinkBoom("link function %d fails" % k)
+        if variant == "const":
+            return float(c)
+        out = sum((i + 1) * np.asarray(x, dtype=float) for i, x in enumerate(args)) + c
+        return np.ravel(out) if variant == "ravel" else out
+    f.__name__ = "f%d_%d_%s" % (nin, k, variant)
     return f
 
 
-def make_shift(k):
+def make_shift(k, scale=1.0):
     def g(x):
-        return np.asarray(x, dtype=float) * 0.5 - k
+        return np.asarray(x, dtype=float) * 0.5 - k * scale
     g.__name__ = "g%d" % k
     return g
 
@@ -116,12 +140,35 @@ def ident(x):
     return x
 
 
+def apply_fn(fn, combo, shape):
+    """value of one derivation step in the oracle: BOOM if the function (or an input) fails, otherwise the result as a
+    full-shape array (scalar results broadcast, ravelled results reshaped, strings kept as strings)"""
+    if any(x is BOOM for x in combo):
+        return BOOM
+    try:
+        r = np.asarray(fn(*combo))
+    except LinkBoom:
+        return BOOM
+    if r.dtype.kind not in "US":
+        r = r.astype(float)
+    if r.shape != tuple(shape) and r.size == int(np.prod(shape)):
+        r = r.reshape(shape)
+    return np.broadcast_to(r, shape)
+
+
+def same_cand(a, b):
+    if a is BOOM or b is BOOM:
+        return a is b
+    return a.dtype.kind == b.dtype.kind and bool(np.array_equal(a, b))
+
+
 # ---------------------------------------------------------------- model
 class Attr:
     def __init__(self, cid, owner, kind, name, values=None):
         self.cid, self.owner, self.kind, self.name, self.values = cid, owner, kind, name, values
         self.alive = True
         self.invertible = False
+        self.is_str = False
 
 
 class DS:
@@ -149,6 +196,11 @@ class World:
         self.dc = None
         self.current_op = "init"
         self.current_block = None
+        self.scale = rng.choice([1.0] * 7 + [1e-10, 1e12, 1e6])
+        self.removed_links = []      # explicitly removed link objects (candidates for re-adding the same object)
+        self.has_scalar_fn = False
+        self.pending_handler_link = None
+        self.reader = None
         self.nsteps = 0
 
     # ------------------------------------------------------------ construction
@@ -166,7 +218,11 @@ class World:
             r = rng.random()
             if shapes and r < 0.25:
                 shapes.append(rng.choice(shapes))          # same shape as an earlier one (LinkAligned possible)
-            elif r < 0.4:
+            elif r < 0.31:
+                shapes.append((1,))                         # single-element dataset
+            elif r < 0.34:
+                shapes.append((rng.randint(100, 180),))     # beyond small-array code paths
+            elif r < 0.46:
                 shapes.append((rng.randint(1, 3), rng.randint(2, 3)))
             else:
                 shapes.append((rng.randint(2, 6),))
@@ -200,6 +256,7 @@ class World:
         self.dc = DataCollection([r.data for r in members])
         for r in members:
             r.member = True
+        self.install_listeners()
         self.log.append(["init", [{"label": "D%d" % r.idx, "shape": list(r.shape), "coords": r.coords,
                                    "mains": [a.name for a in r.mains],
                                    "derived": [[a.name, [x.name for x in r.derived_triples[a][0]],
@@ -219,36 +276,86 @@ class World:
         self.log.append(["init_fixed", [2, 3, 4]])
 
     def fresh_values(self, rec):
+        """(array handed to glue, logical float values, class label): injective values times the history's scale, in a
+        random storage dtype / memory layout; sometimes a constant stride-0 column or a dask-backed column"""
+        rng = self.rng
         n = int(np.prod(rec.shape))
         base = 10.0 * next(self.kcount)
         perm = list(range(n))
-        self.rng.shuffle(perm)
-        return (base + np.array(perm, dtype=float) * 1.25 + self.rng.choice([0.0, 0.25, 0.5])).reshape(rec.shape)
+        rng.shuffle(perm)
+        dt = rng.choice(["float64"] * 6 + ["float32", "int64", "int16", ">f8", "uint8"]) if self.scale == 1.0 else "float64"
+        if np.dtype(dt).kind in "iu":
+            vals = (np.array(perm) + int(base) % 100).astype(dt)
+        else:
+            vals = ((base + np.array(perm, dtype=float) * 1.25 + rng.choice([0.0, 0.25, 0.5])) * self.scale).astype(dt)
+        vals = vals.reshape(rec.shape)
+        layout = rng.choice(["contiguous"] * 8 + ["strided", "reversed", "fortran", "readonly", "broadcast", "dask"])
+        if layout == "strided":
+            big = np.zeros(rec.shape[:-1] + (rec.shape[-1] * 2,), dtype=vals.dtype)
+            big[..., ::2] = vals
+            arr = big[..., ::2]
+        elif layout == "reversed":
+            arr = np.ascontiguousarray(vals[..., ::-1])[..., ::-1]
+        elif layout == "fortran":
+            arr = np.asfortranarray(vals)
+        elif layout == "readonly":
+            arr = vals
+            arr.setflags(write=False)
+        elif layout == "broadcast":
+            arr = np.broadcast_to(vals.ravel()[0], rec.shape)
+            vals = np.array(arr)
+        elif layout == "dask" and HAVE_DASK and len(rec.shape) == 1 and vals.dtype.isnative:
+            import dask.array as da
+            arr = da.from_array(vals, chunks=max(1, n // 2))
+        else:
+            layout = "contiguous"
+            arr = vals
+        self.ctx.count("column_class:%s:%s" % (layout, dt))
+        return arr, np.asarray(vals, dtype=float), layout
 
     def add_main(self, rec, log=True, adopt=None):
-        vals = self.fresh_values(rec)
+        if adopt is None and rec.mains and self.rng.random() < 0.08:
+            return self.add_str_main(rec, log)
+        arr, vals, _layout = self.fresh_values(rec)
         if adopt is not None:
-            cid = rec.data.add_component(vals, adopt.cid)
+            cid = rec.data.add_component(arr, adopt.cid)
             adopt.owner, adopt.kind, adopt.values = rec.idx, "main", vals
             rec.mains.append(adopt)
             a = adopt
         else:
             name = "m%d" % len([x for x in self.attrs if x.owner == rec.idx and x.kind == "main"])
-            cid = rec.data.add_component(vals, name)
+            cid = rec.data.add_component(arr, name)
             a = self.new_attr(cid, rec.idx, "main", "D%d.%s" % (rec.idx, name), vals)
             rec.mains.append(a)
         if log:
             self.log.append(["addcomp", a.name, "adopted" if adopt is not None else "fresh"])
         return a
 
+    def add_str_main(self, rec, log=True):
+        """a categorical (string) column: can only be an endpoint of identity links with other string columns"""
+        n = int(np.prod(rec.shape))
+        k = next(self.kcount)
+        vals = np.array(["s%d_%d" % (k, i % 3) for i in range(n)]).reshape(rec.shape)
+        name = "m%d" % len([x for x in self.attrs if x.owner == rec.idx and x.kind == "main"])
+        cid = rec.data.add_component(vals, name)
+        a = self.new_attr(cid, rec.idx, "main", "D%d.%s" % (rec.idx, name), vals)
+        a.is_str = True
+        rec.mains.append(a)
+        self.ctx.count("column_class:string")
+        if log:
+            self.log.append(["addcomp", a.name, "string"])
+        return a
+
     def add_derived(self, rec, log=True):
         """dataset-internal link: a derived column, for one input with probability 0.6 created WITH an inverse
         (ComponentLink([x], t, using=f, inverse=g)); the collection must then also use g: t -> x"""
-        alive = [a for a in rec.mains if a.alive]
+        alive = [a for a in rec.mains if a.alive and not a.is_str]
+        if not alive:
+            return None
         ins = self.rng.sample(alive, min(len(alive), self.rng.choice([1, 1, 2])))
         k = next(self.kcount)
-        fn = make_fn(k, len(ins))
-        inv = make_shift(k) if (len(ins) == 1 and self.rng.random() < 0.6) else None
+        fn = make_fn(k, len(ins), self.scale)
+        inv = make_shift(k, self.scale) if (len(ins) == 1 and self.rng.random() < 0.6) else None
         name = "der%d" % len(rec.derived)
         cid = ComponentID(name, parent=rec.data)
         if inv is not None:
@@ -262,6 +369,23 @@ class World:
         if log:
             self.log.append(["addderived", a.name, [x.name for x in ins], k, "with_inverse" if inv else "no_inverse"])
         return a
+
+    def fn(self, nin, plain=False):
+        """(function, k, variant) - mostly plain; sometimes k = 0, ravelled output, scalar output, raising"""
+        r = self.rng.random()
+        k = next(self.kcount)
+        variant = "plain"
+        if not plain:
+            if r < 0.05:
+                k = 0
+            elif r < 0.11:
+                variant = "ravel"
+            elif r < 0.125:
+                variant = "const"
+                self.has_scalar_fn = True
+            elif r < 0.165:
+                variant = "boom"
+        return make_fn(k, nin, self.scale, variant), k, variant
 
     # ------------------------------------------------------------ oracle
     def triples_for(self, internal_inverses=True):
@@ -326,8 +450,8 @@ class World:
                         exploded.add(cid)
                         continue
                     for combo in itertools.product(*[cands[f] for f in frm]):
-                        v = np.broadcast_to(np.asarray(fn(*combo), dtype=float), rec.shape)
-                        if not any(np.array_equal(v, o) for o in out):
+                        v = apply_fn(fn, combo, rec.shape)
+                        if not any(same_cand(v, o) for o in out):
                             out.append(v)
                         if len(out) > MAX_CANDS:
                             exploded.add(cid)
@@ -341,7 +465,7 @@ class World:
             d2, c2, e2 = self.closure(rec, triples, True)
             for c, lst in c2.items():
                 for v in lst:
-                    if not any(np.array_equal(v, o) for o in cands.get(c, [])):
+                    if not any(same_cand(v, o) for o in cands.get(c, [])):
                         cands.setdefault(c, []).append(v)
             exploded |= e2
         return depth, cands, exploded
@@ -362,12 +486,16 @@ class World:
                     out.append(a)
         return out
 
-    def pick(self, n, same_owner_bias=0.0, kinds=None):
+    def pick(self, n, same_owner_bias=0.0, kinds=None, strings="no"):
         pool = self.linkable()
         rng = self.rng
         # prefer main attributes, sometimes coordinates / derived / floating
         weights = {"main": 6, "pixel": 2, "world": 2, "derived": 2, "floating": 2}
         pool = [a for a in pool if kinds is None or a.kind in kinds]
+        if strings == "only":
+            pool = [a for a in pool if a.is_str]
+        elif strings == "no":
+            pool = [a for a in pool if not a.is_str]
         if len(pool) < n:
             return None
         chosen = []
@@ -390,20 +518,19 @@ class World:
             a, b = p
             if a.kind == "floating":
                 return None
-            k = next(self.kcount)
-            f = make_fn(k, 1)
-            return ComponentLink([a.cid], b.cid, using=f), kind, [([a.cid], b.cid, f)], ["add1", a.name, b.name, k]
+            f, k, variant = self.fn(1)
+            return ComponentLink([a.cid], b.cid, using=f), kind, [([a.cid], b.cid, f)], ["add1", a.name, b.name, k, variant]
         if kind == "add1inv":
             p = given or self.pick(2)
             if not p:
                 return None
             a, b = p
             k = next(self.kcount)
-            f, g = make_fn(k, 1), make_shift(k)
+            f, g = make_fn(k, 1, self.scale), make_shift(k, self.scale)
             return (ComponentLink([a.cid], b.cid, using=f, inverse=g), kind,
                     [([a.cid], b.cid, f), ([b.cid], a.cid, g)], ["add1inv", a.name, b.name, k])
         if kind == "addsame":
-            p = given or self.pick(2)
+            p = given or (self.pick(2, strings="only") if self.rng.random() < 0.25 else None) or self.pick(2)
             if not p:
                 return None
             a, b = p
@@ -414,7 +541,7 @@ class World:
                 return None
             a, b = p
             k = next(self.kcount)
-            f, g = make_fn(k, 1), make_shift(k)
+            f, g = make_fn(k, 1, self.scale), make_shift(k, self.scale)
             return (LinkTwoWay(a.cid, b.cid, f, g), kind, [([a.cid], b.cid, f), ([b.cid], a.cid, g)],
                     ["add2way", a.name, b.name, k])
         if kind == "addmulti":
@@ -423,17 +550,16 @@ class World:
             if not p:
                 return None
             ins, t = p[:nin], p[nin]
-            k = next(self.kcount)
-            f = make_fn(k, nin)
+            f, k, variant = self.fn(nin)
             return (ComponentLink([a.cid for a in ins], t.cid, using=f), kind, [([a.cid for a in ins], t.cid, f)],
-                    ["addmulti", [a.name for a in ins], t.name, k])
+                    ["addmulti", [a.name for a in ins], t.name, k, variant])
         if kind == "addmultilink":
             p = self.pick(4, same_owner_bias=0.8)
             if not p or any(a.owner is None for a in p):
                 return None
             a, b, c, d = p
             k1, k2, k3, k4 = (next(self.kcount) for _ in range(4))
-            f1, f2, g1, g2 = make_fn(k1, 2), make_fn(k2, 2), make_fn(k3, 2), make_fn(k4, 2)
+            f1, f2, g1, g2 = (make_fn(kk, 2, self.scale) for kk in (k1, k2, k3, k4))
 
             def fw(x, y):
                 return f1(x, y), f2(x, y)
@@ -452,7 +578,7 @@ class World:
             if not ders:
                 return None
             t = rng.choice(ders)
-            others = [a for a in self.linkable() if a.owner is not None and a.owner != t.owner and a.kind in ("main", "pixel", "world")]
+            others = [a for a in self.linkable() if a.owner is not None and a.owner != t.owner and a.kind in ("main", "pixel", "world") and not a.is_str]
             if not others:
                 return None
             y = rng.choice(others)
@@ -475,6 +601,52 @@ class World:
 
     LINK_KINDS = ["add1", "add1", "add1", "add1inv", "addsame", "addsame", "add2way", "addmulti", "addmulti",
                   "addmultilink", "addaligned", "addtoderived", "addtoderived"]
+
+    def entry_linkable(self, e):
+        for frm, to, _fn in e[2]:
+            for c in list(frm) + [to]:
+                a = self.by_cid.get(c)
+                if a is None or not a.alive:
+                    return False
+                if a.owner is not None:
+                    r = self.ds[a.owner]
+                    if not (r.member or not r.removed):
+                        return False
+        return True
+
+    def install_listeners(self):
+        """re-entrancy: (i) in a third of the histories a listener that READS tables and values from inside every message
+        delivery (results ignored - intermediate states are not specified, but reading must not disturb anything);
+        (ii) a listener that registers a pending link from inside ExternallyDerivableComponentsChangedMessage"""
+        w = self
+
+        class Reader(HubListener):
+            def on_any(self, msg):
+                w.ctx.count("reentrant_reads_during_broadcast")
+                for r in w.ds:
+                    if r.member:
+                        try:
+                            _ = r.data.externally_derivable_components
+                            for a in w.attrs[:5]:
+                                try:
+                                    _ = r.data[a.cid]
+                                except Exception:  # noqa
+                                    pass
+                        except Exception:  # noqa
+                            pass
+
+            def on_tables_changed(self, msg):
+                if w.pending_handler_link is not None:
+                    e = w.pending_handler_link
+                    w.pending_handler_link = None
+                    w.dc.add_link(e[0])
+                    w.live.append(e)
+                    w.ctx.count("links_added_from_inside_a_handler")
+        self.reader = Reader()
+        self.dc.hub.subscribe(self.reader, ExternallyDerivableComponentsChangedMessage, handler=self.reader.on_tables_changed)
+        if self.rng.random() < 0.35:
+            self.dc.hub.subscribe(self.reader, Message, handler=self.reader.on_any)
+            self.ctx.count("histories_with_reentrant_reader")
 
     def drop_links_mentioning(self, dead_cids):
         dead = set(dead_cids)
@@ -508,6 +680,117 @@ class World:
                 self.live.append((obj, k, trs))
             self.log.append(["addlist", [m[3] for m in made]])
             return True
+        if kind == "readdlink":
+            # do - remove - re-add: the SAME link object is registered again after it had been removed
+            okl = [e for e in self.removed_links if self.entry_linkable(e) and not any(e[0] is x[0] for x in self.live)]
+            if not okl:
+                return False
+            e = rng.choice(okl)
+            dc.add_link(e[0])
+            self.live.append(e)
+            self.removed_links = [x for x in self.removed_links if x is not e]
+            self.log.append(["readdlink", e[1]])
+            return True
+        if kind == "duplink":
+            # equal but distinct: a second ComponentLink object with the same endpoints and the same function object
+            cands = [e for e in self.live if e[1] in ("add1", "addmulti") and len(e[2]) == 1]
+            if not cands:
+                return False
+            frm, to, fn = rng.choice(cands)[2][0]
+            obj = ComponentLink(list(frm), to, using=fn)
+            dc.add_link(obj)
+            self.live.append((obj, "duplink", [(list(frm), to, fn)]))
+            self.log.append(["duplink", [self.by_cid[c].name for c in frm], self.by_cid[to].name])
+            return True
+        if kind == "replacelink":
+            # atomic replacement (set_links) of one link by another with the SAME endpoints but another function
+            idx = [i for i, e in enumerate(self.live) if e[1] in ("add1", "duplink") and len(e[2][0][0]) == 1]
+            if not idx:
+                return False
+            i = rng.choice(idx)
+            frm, to, _old = self.live[i][2][0]
+            f, k, variant = self.fn(1, plain=True)
+            obj = ComponentLink(list(frm), to, using=f)
+            entries = list(self.live)
+            self.removed_links.append(entries[i])
+            entries[i] = (obj, "add1", [(list(frm), to, f)])
+            dc.set_links([e[0] for e in entries])
+            self.live = entries
+            self.log.append(["replacelink", i, k])
+            return True
+        if kind == "emptylists":
+            dc.add_link([])
+            dc.remove_link([])
+            self.log.append(["emptylists"])
+            return True
+        if kind == "setlinks_empty":
+            if not self.live:
+                return False
+            dc.set_links([])
+            self.removed_links.extend(self.live)
+            self.live = []
+            self.log.append(["setlinks_empty"])
+            return True
+        if kind == "noop_twice":
+            # the same operation a second time / on something that is not there: must change nothing
+            members = [r for r in self.ds if r.member]
+            what = rng.choice(["append_member_again", "remove_non_member", "remove_dead_component_again"])
+            if what == "append_member_again" and members:
+                dc.append(rng.choice(members).data)
+            elif what == "remove_non_member":
+                dc.remove(Data(label="stranger", q=[1.0, 2.0]))
+            else:
+                dead = [(r, a) for r in members for a in r.mains + r.derived if not a.alive]
+                if not dead:
+                    return False
+                r, a = rng.choice(dead)
+                r.data.remove_component(a.cid)
+            self.log.append(["noop_twice", what])
+            return True
+        if kind == "reorder":
+            members = [r for r in self.ds if r.member]
+            if not members:
+                return False
+            r = rng.choice(members)
+            comps = list(r.data.components)
+            rng.shuffle(comps)
+            r.data.reorder_components(comps)
+            self.log.append(["reorder", "D%d" % r.idx])
+            return True
+        if kind in ("fault_remove_unregistered", "fault_add_none"):
+            # a call that raises; whatever it leaves behind must not matter for what follows
+            try:
+                if kind == "fault_add_none":
+                    dc.add_link(None)
+                else:
+                    made = self.make_link("add1")
+                    if made is None:
+                        return False
+                    dc.remove_link(made[0])
+                self.ctx.count("fault_call_did_not_raise:" + kind)
+            except BoundExceeded:
+                raise
+            except Exception as exc:  # noqa
+                self.ctx.count("fault_call_raised:%s:%s" % (kind, type(exc).__name__))
+            self.log.append([kind])
+            return True
+        if kind == "addlink_from_handler":
+            # re-entrancy: while the collection tells its listeners that a dataset's derivable attributes changed (i.e. in
+            # the middle of LinkManager.update_externally_derivable_components), a handler registers another link
+            a_, b_ = self.make_link("add1"), self.make_link(rng.choice(["add1", "addsame", "add1inv"]))
+            if a_ is None or b_ is None:
+                return False
+            self.pending_handler_link = (b_[0], b_[1], b_[2])
+            dc.add_link(a_[0])
+            self.live.append((a_[0], a_[1], a_[2]))
+            if self.pending_handler_link is not None:        # no table changed (or messages are delayed): add it normally
+                e = self.pending_handler_link
+                self.pending_handler_link = None
+                dc.add_link(e[0])
+                self.live.append(e)
+                self.ctx.count("handler_link_added_outside_handler")
+            self.log.append(["addlink_from_handler", a_[3], b_[3]])
+            return True
         if kind == "setlinks":
             keep = [e for e in self.live if rng.random() < 0.6]
             new = self.make_link(rng.choice(["add1", "addsame", "add2way"])) if rng.random() < 0.6 else None
@@ -518,6 +801,7 @@ class World:
                 logent.append(new[3])
             rng.shuffle(entries)
             dc.set_links([e[0] for e in entries])
+            self.removed_links.extend(e for e in self.live if not any(e is k_ for k_ in keep))
             self.live = entries
             self.log.append(logent)
             return True
@@ -532,6 +816,7 @@ class World:
                 dc.remove_link(es[0][0])
             self.log.append(["rmlink", [self.live.index(e) for e in es]])
             self.live = [e for e in self.live if not any(e is x for x in es)]
+            self.removed_links.extend(es)
             return True
         if kind == "rmcomp":
             cands = [(r, a) for r in self.ds if r.member for a in r.mains if a.alive and
@@ -562,7 +847,7 @@ class World:
             self.add_main(r, adopt=adopt)
             return True
         if kind == "addderived":
-            recs = [r for r in self.ds if r.member and any(a.alive for a in r.mains) and len(r.derived) < 2]
+            recs = [r for r in self.ds if r.member and any(a.alive and not a.is_str for a in r.mains) and len(r.derived) < 2]
             if not recs:
                 return False
             self.add_derived(rng.choice(recs))
@@ -605,7 +890,10 @@ class World:
         raise ValueError(kind)
 
     PRIMS = (LINK_KINDS + LINK_KINDS + ["addlist", "setlinks", "rmlink", "rmlink", "rmlink", "rmcomp", "rmcomp", "addcomp",
-                                       "addderived", "newfloat", "rmdata", "rmdata", "append", "append", "append"])
+                                       "addderived", "newfloat", "rmdata", "rmdata", "append", "append", "append",
+                                       "readdlink", "readdlink", "duplink", "replacelink", "replacelink", "emptylists",
+                                       "setlinks_empty", "noop_twice", "reorder", "fault_remove_unregistered", "fault_add_none",
+                                       "addlink_from_handler", "addlink_from_handler"])
 
     def step(self):
         """One top-level step (a primitive, or a block of primitives).  Returns the step's op label or None."""
@@ -643,6 +931,24 @@ class World:
 
 
 # ---------------------------------------------------------------- observation
+def rand_view(rng, shape):
+    """a view from the supported domain (DESIGN C04: non-negative integers, positive steps), including out-of-order and
+    duplicate index arrays; negative indices / backward slices are outside that domain (pixel attributes are computed from
+    the index values themselves, so a -1 would read as pixel -1) and are not generated"""
+    kind = rng.choice(["slice", "int", "index_arrays", "bool"])
+    if kind == "slice":
+        return tuple(slice(rng.randrange(0, n), None, rng.choice([None, 2])) for n in shape)
+    if kind == "int":
+        v = [rng.randrange(n) for n in shape]
+        if len(shape) > 1:
+            v[rng.randrange(len(shape))] = slice(None)
+        return tuple(v)
+    if kind == "index_arrays":
+        k = rng.randint(1, 5)
+        return tuple(np.array([rng.randrange(n) for _ in range(k)]) for n in shape)
+    return np.array([rng.random() < 0.5 for _ in range(int(np.prod(shape)))]).reshape(shape)
+
+
 def attr_has_cycle(triples):
     """(has 2-cycle or longer, has cycle longer than 2) on the attribute graph input -> output."""
     adj = {}
@@ -686,7 +992,11 @@ def observe(w, op_label, hist_hash):
             for a in r.own_attrs():
                 gone_ds_cids[a.cid] = a
     op_class = op_label.split("[")[0] if op_label else "none"
-    base_sig = {"last_op": op_label}
+    scale_class = "unit" if w.scale == 1.0 else ("tiny" if w.scale < 1 else "large")
+    base_sig = {"last_op": op_label, "scale": scale_class, "history_has_scalar_returning_link": w.has_scalar_fn}
+    # absolute floor 1e-12: chains mix O(1) pixel / world values with scale-sized ones, so results of size ~scale carry the
+    # rounding error of O(1) intermediates (coordinate inversion differs from the oracle's (w-b)/a in the last bit)
+    atol = max(1e-9 * w.scale, 1e-12)
     hist = lambda **kw: dict({"history": w.log}, **kw)
     ok = True
 
@@ -780,10 +1090,15 @@ def observe(w, op_label, hist_hash):
             nontrivial = (foreign and exp_reach and dep >= 1) or (foreign and not exp_reach and was)
             ctx.evaluation([hist_hash, w.nsteps, rec.idx, a.name], nontrivial)
             try:
-                got = np.asarray(d[cid], dtype=float)
+                got = np.asarray(d[cid])
+                if got.dtype.kind not in "US":
+                    got = got.astype(float)
                 can = True
             except IncompatibleAttribute:
                 can = False
+            except LinkBoom:
+                got = BOOM
+                can = True
             except BoundExceeded:
                 raise
             except Exception as exc:  # noqa
@@ -819,17 +1134,51 @@ def observe(w, op_label, hist_hash):
                 ctx.count("value_not_compared_candidate_explosion")
                 continue
             cl = cands[cid]
-            if got.shape != rec.shape or not any(np.allclose(got, c, rtol=RTOL, atol=1e-9, equal_nan=True) for c in cl):
+
+            def matches(c):
+                if got is BOOM or c is BOOM:
+                    return got is c
+                if got.shape != rec.shape:
+                    return False
+                if got.dtype.kind in "US" or c.dtype.kind in "US":
+                    return got.dtype.kind in "US" and c.dtype.kind in "US" and bool(np.array_equal(got.astype(str), c.astype(str)))
+                return bool(np.allclose(got, c, rtol=RTOL, atol=atol, equal_nan=True))
+            if not any(matches(c) for c in cl):
                 ctx.violation(dict(base_sig, kind="value", attr_kind=a.kind, attr_class=cls, expected_depth=depth_bucket(dep),
                                    candidates="one" if len(cl) == 1 else "several",
-                                   shape_ok=got.shape == rec.shape),
+                                   observed="link_function_error" if got is BOOM else "values",
+                                   expected_link_function_error=any(c is BOOM for c in cl),
+                                   shape_ok=got is BOOM or got.shape == rec.shape),
                               hist(dataset=d.label, attr=a.name, observed=got, candidates=[c for c in cl[:6]]))
                 ok = False
                 continue
             ctx.count("value_comparisons")
+            if got is BOOM:
+                ctx.count("read_failing_link_function_surfaced")
+                continue
+            if got.dtype.kind in "US":
+                ctx.count("value_comparisons_string_through_identity_link")
+                continue
             if len(cl) > 1:
                 ctx.count("value_comparisons_with_several_min_depth_derivations")
-            if foreign and len(probes_reach) < 2 and w.rng.random() < 0.4:
+            numeric = [c for c in cl if c is not BOOM]
+            if len(numeric) == len(cl) and foreign and w.rng.random() < 0.15:
+                # the same attribute read through a view (also backward / negative / duplicate indices)
+                view = rand_view(w.rng, rec.shape)
+                try:
+                    gv = np.asarray(d[cid, view], dtype=float)
+                    okv = any(gv.shape == np.shape(c[view]) and np.allclose(gv, c[view], rtol=RTOL, atol=atol) for c in numeric)
+                    res = "values"
+                except Exception as exc:  # noqa
+                    okv, res = False, "exception:" + type(exc).__name__
+                ctx.count("view_reads_of_linked_attribute")
+                if not okv:
+                    ctx.violation(dict(base_sig, kind="value_through_view", sub=res, attr_kind=a.kind,
+                                       expected_depth=depth_bucket(dep)),
+                                  hist(dataset=d.label, attr=a.name, view=repr(view), observed=gv if res == "values" else res,
+                                       full=got, expected=[np.asarray(c[view]) for c in numeric[:4]]))
+                    ok = False
+            if len(numeric) == len(cl) and foreign and len(probes_reach) < 2 and w.rng.random() < 0.4:
                 probes_reach.append((a, cl))
         # (3) selection probes
         for a, cl in probes_reach:
@@ -837,22 +1186,36 @@ def observe(w, op_label, hist_hash):
             thr = None
             if len(allv) >= 2:
                 gaps = np.diff(allv)
-                idx = [i for i in range(len(gaps)) if gaps[i] > 1e-3]
+                idx = [i for i in range(len(gaps)) if gaps[i] > 1e-6 * max(abs(allv[i]), abs(allv[i + 1]), 1e-300)]
                 if idx:
                     i = w.rng.choice(idx)
                     thr = float((allv[i] + allv[i + 1]) / 2)
             if thr is None:
                 thr = float(allv[0]) - 1.0
+            route = w.rng.choice(["get_mask", "get_mask", "range_state", "subset_group"])
+            hi = float(allv[-1]) + abs(float(allv[-1])) * 0.5 + 1.0
+            grp = None
             try:
-                m = np.asarray(d.get_mask(a.cid > thr))
+                if route == "get_mask":
+                    m = np.asarray(d.get_mask(a.cid > thr))
+                elif route == "range_state":
+                    m = np.asarray(d.get_mask(RangeSubsetState(thr, hi, att=a.cid)))
+                else:
+                    grp = w.dc.new_subset_group(label="probe", subset_state=a.cid > thr)
+                    sub = [x for x in grp.subsets if x.data is d][0]
+                    m = np.asarray(sub.to_mask())
                 res = "mask"
             except IncompatibleAttribute:
                 res = "incompatible"
             except Exception as exc:  # noqa
                 res = "exception:" + type(exc).__name__
+            finally:
+                if grp is not None:
+                    w.dc.remove_subset_group(grp)
             ctx.count("selection_probes_reachable")
+            ctx.count("selection_probe_route:" + route)
             if res != "mask" or m.dtype != bool or m.shape != rec.shape or not any(np.array_equal(m, c > thr) for c in cl):
-                ctx.violation(dict(base_sig, kind="selection", sub="mask_mismatch" if res == "mask" else res,
+                ctx.violation(dict(base_sig, kind="selection", sub="mask_mismatch" if res == "mask" else res, route=route,
                                    attr_kind=a.kind), hist(dataset=d.label, attr=a.name, threshold=thr,
                                                            observed=m if res == "mask" else res))
                 ok = False
@@ -873,7 +1236,7 @@ def observe(w, op_label, hist_hash):
 
 
 # ---------------------------------------------------------------- driver interface
-N_BLOCKS = {"quick": 512, "thorough": 6000}
+N_BLOCKS = {"quick": 256, "thorough": 6000}
 PER_BLOCK = 4
 
 
@@ -946,6 +1309,7 @@ def run_history(ctx):
         return
     nsteps = rng.randint(3, 10) if ctx.tier == "quick" else rng.randint(5, 40 if rng.random() < 0.2 else 14)
     ctx.count("histories")
+    ctx.count("history_scale:" + ("unit" if w.scale == 1.0 else ("tiny" if w.scale < 1 else "large")))
     hist_seed = rng.random()
     hist_hash = stable_hash([ctx.case, hist_seed], 12)
     nattr = lambda: len(w.attrs) + 2
@@ -1013,6 +1377,21 @@ def floors(counters, tier):
             ("value_comparisons", 25000), ("selection_probes_reachable", 2000), ("selection_probes_unreachable", 4000),
             ("value_comparisons_with_several_min_depth_derivations", 500),
             ("external_links_comparisons", 1500), ("derivable_table_comparisons", 4000)]
+    # adversarial widening round
+    need += [("step:readdlink", 15), ("step:duplink", 15), ("step:replacelink", 25), ("step:emptylists", 25),
+             ("step:setlinks_empty", 20), ("step:noop_twice", 20), ("step:reorder", 30), ("step:fault_add_none", 30),
+             ("step:fault_remove_unregistered", 30), ("step:addlink_from_handler", 50),
+             ("links_added_from_inside_a_handler", 30), ("histories_with_reentrant_reader", 100),
+             ("reentrant_reads_during_broadcast", 1200), ("read_failing_link_function_surfaced", 50),
+             ("value_comparisons_string_through_identity_link", 400), ("view_reads_of_linked_attribute", 800),
+             ("selection_probe_route:range_state", 500), ("selection_probe_route:subset_group", 500),
+             ("column_class:string", 80), ("history_scale:tiny", 25), ("history_scale:large", 50)]
+    for lay in ("strided", "reversed", "fortran", "readonly", "broadcast", "dask"):
+        if sum(v for k, v in counters.items() if k.startswith("column_class:%s:" % lay)) < 120:
+            out.append("fewer than 120 columns with memory layout / container %s" % lay)
+    for dt in ("float32", "int64", "int16", ">f8", "uint8"):
+        if sum(v for k, v in counters.items() if k.startswith("column_class:") and k.endswith(":" + dt)) < 100:
+            out.append("fewer than 100 columns stored as %s" % dt)
     for k, n in need:
         if counters.get(k, 0) < n:
             out.append("fewer than %d %s" % (n, k))
